@@ -257,7 +257,8 @@ Proof.
   split; [apply bind_okb_ok; vm_compute; reflexivity|].
   repeat (split; [apply coversb_ok; vm_compute; reflexivity|]).
   split; [fold r; destruct r as [[[[? ?] ?] ?] ?]; reflexivity|]. split; [vm_compute; reflexivity|].
-  exists 1%N. eexists _, _. split; [vm_compute; reflexivity|]. repeat (split; [reflexivity|]).
+  exists 1%N, (CE (Some chk_web_out2) 0 true false false true), chk_web_out2.
+  split; [vm_compute; reflexivity|]. repeat (split; [reflexivity|]).
   intros (x & Lx & Ex). vm_compute in Lx. injection Lx as <-. vm_compute in Ex. discriminate.
 Qed.
 
@@ -279,7 +280,8 @@ Proof.
   split; [apply bind_okb_ok; vm_compute; reflexivity|].
   repeat (split; [apply coversb_ok; vm_compute; reflexivity|]).
   split; [fold r; destruct r as [[[[? ?] ?] ?] ?]; reflexivity|]. split; [vm_compute; reflexivity|].
-  exists 1%N. eexists _, _, _. split; [vm_compute; reflexivity|]. repeat (split; [reflexivity|]).
+  exists 1%N, (CE (Some chk_web_aux1) 0 true false false false), chk_web_aux1, chk_web.
+  split; [vm_compute; reflexivity|]. do 4 (split; [reflexivity|]).
   split; [vm_compute; reflexivity|]. vm_compute. discriminate.
 Qed.
 
@@ -290,6 +292,7 @@ Theorem deferred_output_after_timer :
   let c := snd (state_of_g g0d (h_defer ++ [STimer 1; SSyncChanges all_s all_c]) []) in
   exists e, l_chks st !! 1%N = Some e /\ ce_sync e = true /\ ce_defer e = false /\ holds_chk c 1 chk_web_out2.
 Proof.
-  cbn zeta. eexists. split; [vm_compute; reflexivity|]. split; [reflexivity|]. split; [reflexivity|].
-  eexists. split; [vm_compute; reflexivity|]. vm_compute. reflexivity.
+  cbn zeta. exists (CE (Some chk_web_out2) 0 true false false false).
+  split; [vm_compute; reflexivity|]. split; [reflexivity|]. split; [reflexivity|].
+  exists chk_web_out2. split; [vm_compute; reflexivity|]. vm_compute. reflexivity.
 Qed.
